@@ -4,6 +4,7 @@
 from math import prod
 from typing import Callable, Dict, List, Optional, Tuple, Union
 
+import jax
 import jax.numpy as jnp
 import pandas as pd
 
@@ -258,8 +259,15 @@ def integrate(
     )
     all_states, all_params = init_fn(params, all_states, param_state, delta_t)
 
-    def _body_fun(state, externals):
-        state = step_fn(state, all_params, externals, external_inds, delta_t)
+    def _body_fun(state, inputs):
+        externals, is_padding = inputs
+        new_state = step_fn(dict(state), all_params, externals, external_inds, delta_t)
+        # Steps that only exist because `prod(checkpoint_lengths)` exceeds the requested
+        # duration must not advance the state (otherwise `return_states=True` would
+        # return the state of a later time point than the last recording).
+        state = jax.tree_util.tree_map(
+            lambda new, old: jnp.where(is_padding, old, new), new_state, state
+        )
         recs = jnp.asarray(
             [
                 state[rec_state][rec_ind]
@@ -303,10 +311,11 @@ def integrate(
     init_recording = jnp.expand_dims(init_recs, axis=0)
 
     # Run simulation.
+    is_padding = jnp.arange(length) >= nsteps_to_return
     all_states, recordings = nested_checkpoint_scan(
         _body_fun,
         all_states,
-        externals,
+        (externals, is_padding),
         length=length,
         nested_lengths=checkpoint_lengths,
     )
